@@ -57,7 +57,11 @@ TAIL_KINDS = ("deep_nesting", "deep_nesting_small", "long_line", "long_chain", "
 
 def mutate(rng, kind_hint=None):
     """returns (relative name, bytes, description)"""
-    lang = "py" if kind_hint in ("long_directive", "long_chain", "deep_nesting") and rng.random() < 0.7 else rng.choice(["py", "py", "ts", "js", "rs", "rs"])
+    other_lang = bool(kind_hint) and kind_hint.endswith(":other")      # `long_directive:other`: the same kind on a TypeScript / JavaScript / Rust file
+    if other_lang:
+        kind_hint = kind_hint[: -len(":other")]
+    lang = ("py" if kind_hint == "long_directive" and not other_lang else rng.choice(["ts", "js", "rs"]) if other_lang
+            else "py" if kind_hint in ("long_chain", "deep_nesting") and rng.random() < 0.7 else rng.choice(["py", "py", "ts", "js", "rs", "rs"]))
     src_lang = "ts" if lang == "js" else lang
     base, _pl, _meta = gen_file(rng, src_lang, "bad", n_units=rng.randint(3, 6), layout=True)
     data = base.encode("utf-8")
@@ -182,10 +186,12 @@ def mutate(rng, kind_hint=None):
                   " thailint: ignore[" + "nesting," * 2000 + "]", " noqa" + " " * 5000 + "x", " eslint-disable-next-line " + "no-x, " * 1500,
                   " noqa:" + "E501,W291 ," * 400 + "!", " nosec " + "B" * 3000 + "-", " type: ignore" + "[" * 300]
         lines = base.split("\n")
-        for body in rng.sample(bodies, rng.randint(2, len(bodies))):
-            i = rng.randrange(len(lines))
-            if "\\" not in lines[i]:
-                lines[i] = lines[i] + "  " + c + body
+        # every body, each on a line of its own where the file has enough lines (a directive-shaped comment of every tool)
+        free = [i for i, ln in enumerate(lines) if "\\" not in ln and ln.strip()]
+        rng.shuffle(free)
+        for k, body in enumerate(bodies):
+            i = free[k % len(free)] if free else 0
+            lines[i] = lines[i] + "  " + c + body
         return name, "\n".join(lines).encode("utf-8"), kind
     if kind == "unknown_ext":
         return "src/bad_unknown" + rng.choice([".xyz", ".txt", ".PY", ".pyi", ".jsx", ".tsx", ".mjs", ".md", ".sh", ".css", ".json", ".yaml", ".toml", ".rs.bak", ""]), data, kind
@@ -322,7 +328,7 @@ def run(tier: str, seed: int, st: core.ProofStatus) -> core.Result:
     cases = []
     kinds_cycle = ["empty", "whitespace", "random_bytes", "invalid_utf8", "bom_only", "nul", "lone_cr", "mixed_eol", "truncate", "token_delete", "token_dup", "bracket", "byte_damage",
                    "deep_nesting", "deep_nesting_small", "long_line", "long_chain", "huge_int", "surrogate", "long_directive", "unknown_ext", "shebang", "long_identifier",
-                   "only_comment", "unterminated_string", "broken_import", "long_chain", "long_chain", "deep_nesting", "many_findings_line", "truncate", "truncate_line", "truncate_line", "truncate_line", "long_directive", "truncate_line", "truncate_line"]
+                   "only_comment", "unterminated_string", "broken_import", "long_chain", "long_chain", "deep_nesting", "many_findings_line", "truncate", "truncate_line", "truncate_line", "truncate_line", "long_directive:other", "truncate_line", "truncate_line"]
     for i in range(n):
         healthy = healthy_project(rng)
         if i < 3 or (i >= len(kinds_cycle) and rng.random() < 0.05):
